@@ -373,6 +373,7 @@ type l2params struct {
 	burst       int
 	free        int
 	passthrough bool
+	eager       bool // entity plans: printed Input instead of the SubgraphOperation artifact
 }
 
 type l2acc struct {
@@ -385,7 +386,7 @@ type l2acc struct {
 func l2Plan(c *fw.Ctx, res *fw.Result, acc *l2acc, idx int, spec *planSpec, rng *rand.Rand, p l2params) {
 	res.Count("l2_plans", 1)
 	for _, o := range runtimeOptSets(spec.Kind) {
-		resp, rt, err := process(spec, o, false)
+		resp, rt, err := process(spec, o, p.eager)
 		if err != nil {
 			res.Inconclusive = "harness: " + err.Error()
 			return
@@ -396,7 +397,7 @@ func l2Plan(c *fw.Ctx, res *fw.Result, acc *l2acc, idx int, spec *planSpec, rng 
 			continue
 		}
 		witness := func() map[string]any {
-			return map[string]any{"plan": spec.String(), "opt": o.Name, "tree": dumpTree(resp.Fetches)}
+			return map[string]any{"plan": spec.String(), "opt": o.Name, "tree": dumpTree(resp.Fetches), "eager_input": p.eager}
 		}
 		// the structural oracle applies here as well (a wrong tree explains a runtime finding)
 		checkStructure(res, spec, o, tm, witness)
@@ -607,6 +608,7 @@ func runL2Random(c *fw.Ctx, res *fw.Result, idx int, gen func(*rand.Rand) *planS
 	acc := &l2acc{keys: map[string]bool{}}
 	spec := gen(rng)
 	p := l2params{permCap: 24, flatRandom: 4, burst: 2, free: 1, passthrough: rng.IntN(2) == 0}
+	p.eager = spec.Kind == "entity" && rng.IntN(5) == 0
 	l2Plan(c, res, acc, idx, spec, rng, p)
 	res.Sample = map[string]any{"plan": spec.String(), "executions": acc.execCount}
 	acc.finish(res)
